@@ -309,6 +309,25 @@ def run(ctx):
         ctx.ob('C03.R5', f'factory-memo-pairing:{fname}', dm.where(fn),
                f'{fname} pairs {factory} with its own memo table', ok, norm(calls[0])[:160] if calls else 'no call')
 
+    # the two memo tables are two dictionaries (an alias would hand die_if_unbearable the boolean tester compiled for is_bearable)
+    def underlying(name, depth=0):
+        sts = dm.assigns.get(name, [])
+        v = getattr(sts[-1], 'value', None) if sts else None
+        if isinstance(v, ast.Name) and depth < 4:
+            return underlying(v.id, depth + 1)
+        return name, v
+    tables = {}
+    for fname in pair:
+        fn = dm.defs.get(fname)
+        calls = [c for c in walk_shallow(fn) if isinstance(c, ast.Call) and dotted(c.func) == 'make_func_checker']
+        if calls and len(calls[0].args) >= 5 and isinstance(calls[0].args[4], ast.Name):
+            tables[fname] = underlying(calls[0].args[4].id)
+    ok = len(tables) == 2 and len({t[0] for t in tables.values()}) == 2 and all(
+        isinstance(t[1], ast.Dict) or (isinstance(t[1], ast.Call) and dotted(t[1].func) == 'dict') for t in tables.values())
+    ctx.ob('C03.R5', 'factory-memo-pairing:tables-distinct', dm.where(dm.tree.body[0]),
+           'the memo tables of is_bearable and die_if_unbearable are two distinct module-level dictionaries', ok,
+           f'{ {k: (v[0], norm(v[1])[:40] if v[1] is not None else None) for k, v in tables.items()} }')
+
     # ---- R6 ----------------------------------------------------------------------
     ctx.rule('C03.R6', 'raise sites of the private _BeartypeCallHintPepRaise* classes under beartype/_check/error and '
              'in hinttreeerror are enumerated against the reviewed table (one reason each); a new site is reported')
